@@ -14,7 +14,7 @@ CHECKS = {
  "C08": dict(cat="fault_enumeration", tech="generated fault injection (which peer x which Sink operation x which point of the sequence) on mock peers, at three levels: FanoutMany/Router driven directly as Sinks and both router futures; healthy-peer delivery oracle + probe exchange",
      text="Every (operation x sibling position x router) class is generated thousands of times per quick run; healthy siblings must satisfy the full C01/C02 delivery oracle over the whole history, the aggregate sink must never error or panic, and after a replier failure a fresh replier must bind and serve a probe exchange.",
      note="A failed sink keeps failing and wakes its waiter (as a broken QUIC stream does); 'conn' faults also error+end the peer's inbound stream.", ref="§5 C08"),
- "C09": dict(cat="exploration", tech="stateful PBT of both router futures under a strictly wake-driven harness executor with an inner-poll counter (spin bound) and a quiescence oracle; exhaustive enumeration of one-sided populations",
+ "C09": dict(cat="exploration", tech="stateful PBT of both router futures under a strictly wake-driven harness executor with an inner-poll counter (spin bound) and a quiescence oracle; exhaustive enumeration of one-sided populations; idle-CPU measurement on the real server (loopback); draining 1-40000 queued registrations in a child process on a 2 MiB stack",
      text="The harness owns every wake-up: the router is re-polled only when it woke its waker. Spin = more mock calls inside one poll than max(50000,16*(work+2)*(peers+4)); sleeping on undone work = at quiescence some registered stream still has queued items, some healthy sink is unflushed, some registration was not processed, or closing the channel does not complete the future.",
      note="A loop that calls no mock is only caught by the 120 s watchdog (exit 2). Mocks wake exactly the last waker they were given.", ref="§5 C09"),
  "C10": dict(cat="exploration", tech="stateful PBT of the request/reply router against a single-binding reference model (FIFO registration, settle-separated certainty), incl. blocked rejected-replier sinks, plus bounded-exhaustive small scope and a probe exchange; one leg with failing sinks (unclean departures)",
@@ -54,7 +54,7 @@ CHECKS = {
  "C11": dict(cat="exploration", tech="frame-script property-based testing against a fresh real server with raw wire peers (service probes per accepted stream, post-hoc health probes per topic, process-wide panic hook) plus stateful PBT of the real req/rep router fed with non-message and near-limit frames; half-written first frames; simultaneous first registrations on new topics",
      text="Generated scripts of stream opens (all eight first-frame kinds, valid/invalid names, topics already used in the other pattern) and mid-stream frames of any kind incl. requests that only fit the wire limit before the routing tag is added; every stream must end up served in its role (verified by an exchange through that very stream) or explicitly refused with an error frame (which the client library reports from open()); no server task may panic and every touched topic must still serve fresh well-behaved peers.",
      note="Authenticated peer, well-formed frames only. 'Ok' precedes adoption by the router, so the harness settles bindings with probe exchanges before relying on their order.", ref="§5 C11"),
- "C17": dict(cat="fault_enumeration", tech="generated stall + registration-queue overflow on one topic of a fresh real server (non-reading subscriber, flooding publishers, b registrations before and n after the stall, n around and above the queue capacity), cross-topic probe with raw peers (fresh connections, the stuck publishers' connection, the connections with queued registrations) and the client library; variant where the stalled client's whole connection is out of flow-control credit",
+ "C17": dict(cat="fault_enumeration", tech="generated stall + registration-queue overflow on one topic of a fresh real server (non-reading subscriber, flooding publishers, b registrations before and n after the stall, n around and above the queue capacity), cross-topic probe with raw peers (fresh connections, the stuck publishers' connection, the connections with queued registrations) and the client library; variant where the stalled client's whole connection is out of flow-control credit; a Client waiting on the stalled topic using another topic; in a child process, draining 1-40000 queued registrations on a 2 MiB stack",
      text="After topic A is provably stalled (its publishers are back-pressured) and more registrations than the router's queue holds are made on it, a publisher/subscriber pair on topic B (raw and through the client library) must still register and exchange a message; a control exchange on B before the stall must have succeeded in the same case.",
      note="One stall mechanism; the violating behaviour is a dead-lock, so the 12 s deadline is not a race.", ref="§5 C17"),
 
